@@ -54,24 +54,21 @@ void put_name(Src &s, Builder &b, const Labels &l, bool adv, bool *pristine, std
   }
 }
 
-struct Allow { bool qname, qtype, qcase, qregion, servfail; };
-Gen gen_reply(Src &s, const std::vector<uint8_t> &query, const Query &q, uint16_t qtype, Allow allow, bool cname_flag, bool known_rep, bool known_unused, bool known_rdl) {
+Gen gen_reply(Src &s, const std::vector<uint8_t> &query, const Query &q, uint16_t qtype, bool cname_flag, bool known_rdl, bool known_multiq) {
   Gen g; Builder b;
   bool adv = s.below(4) != 0;                 // 1 in 4 replies is built by the valid productions only
-  if (cname_flag && known_unused) adv = false;
   uint16_t flags = F_QR | F_RD | F_RA; if (s.flag()) flags |= F_AA;
   int rcode = 0;
   if (adv) { int r = s.below(12); if (r == 1) rcode = 3; else if (r == 2) rcode = 2; else if (r == 3) rcode = 5; else if (r == 4) rcode = 4; else if (r == 5) rcode = 1; else if (r == 6) rcode = 6 + s.below(10);
     if (s.chance(1, 8)) { flags |= F_TC; g.tc = true; } if (s.chance(1, 16)) flags |= (uint16_t)(s.below(16) << 11); }
-  else if (s.chance(1, 6) && !(cname_flag && known_unused)) rcode = 3;
+  else if (s.chance(1, 6)) rcode = 3;
   if (adv && s.chance(1, 12)) { flags &= (uint16_t)~F_QR; g.pristine = false; }      // a query, not a response: must be ignored
   if (rcode || g.tc) { if (rcode != 0 && rcode != 3) g.pristine = false; if (g.tc) g.pristine = false; }
-  if ((rcode == 2 || rcode == 4 || rcode == 5) && !allow.servfail) { verif_known_skipped("asan:heap-use-after-free@client_tcp_read_packet_cb"); rcode = 3; }
   flags |= (uint16_t)rcode;
   b.header(q.id, flags, 1, 0, 0, 0);
   // question section
   int qmode = adv ? s.below(16) : 0; uint16_t qd = 1;
-  if ((qmode == 1 && !allow.qname) || ((qmode == 2 || qmode == 3) && !allow.qtype) || (qmode == 5 && !allow.qcase)) qmode = 0;
+  if (qmode == 6 && known_multiq) { verif_known_skipped("C33/multi-question-mismatch-fails-request"); qmode = 0; }
   switch (qmode) {
     case 1: { Labels other = q.name; if (other.empty()) other.push_back("x"); else other[0] += "x"; b.question(other, qtype, C_IN); g.pristine = false; break; }      // another name
     case 2: b.question(q.name, qtype == T_A ? T_AAAA : T_A, C_IN); g.pristine = false; break;                           // another type
@@ -85,12 +82,10 @@ Gen gen_reply(Src &s, const std::vector<uint8_t> &query, const Query &q, uint16_
   // answer section
   static const int NANS[] = {1, 1, 2, 3, 0, 4, 6, 12, 40};
   int nan = NANS[s.below(adv ? 9 : 6)]; int written = 0; int ncname = 0;
-  if (cname_flag && known_unused && nan == 0) nan = 1;
   for (int i = 0; i < nan; i++) {
     int tsel = s.below(10); uint16_t type = qtype;
-    if (cname_flag && known_unused && i == 0) tsel = 0;
     if (tsel == 1 || tsel == 2) type = T_CNAME; else if (tsel == 3) type = (qtype == T_A) ? T_AAAA : T_A; else if (tsel == 4) type = T_PTR; else if (tsel == 5) type = 16 + s.below(90); else if (tsel == 6 && adv) type = T_SOA;
-    if (type == T_CNAME) { if (cname_flag && known_rep && ncname >= 1) { verif_known_skipped("C33/leak-cname-repeated"); type = qtype; } else ncname++; }
+    if (type == T_CNAME) ncname++;
     uint16_t klass = C_IN; if (adv && s.chance(1, 12)) { klass = s.flag() ? 3 : 255; g.pristine = false; }
     put_name(s, b, q.name, adv, &g.pristine, offs);
     uint32_t ttl = (uint32_t)s.boundary(32);
@@ -129,10 +124,10 @@ Gen gen_reply(Src &s, const std::vector<uint8_t> &query, const Query &q, uint16_
   b.set16(4, qd); b.set16(6, (unsigned)ancount); b.set16(8, (unsigned)((adv && s.chance(1, 10)) ? nsw + 1 + s.below(3) : nsw)); b.set16(10, (unsigned)nar);
   g.bytes = b.b;
   if (adv) {
-    const bool allow_q_mismatch = allow.qregion; size_t lo = allow_q_mismatch ? 2 : 12 + q.qname_len + 4; if (!allow.servfail && lo < 4) lo = 4;      // with question mismatches excluded, leave header+question intact (the ID may still flip)
+    const bool allow_q_mismatch = true; size_t lo = 2;      // flips / cuts anywhere behind the ID
     switch (s.below(8)) {
       case 1: { size_t cut = s.below((uint32_t)g.bytes.size() + 1); if (s.flag() && g.bytes.size() > 30) cut = g.bytes.size() - 1 - s.below(24);   /* often: inside the last record */ if (!allow_q_mismatch && cut < lo) cut = lo; if (cut < g.bytes.size()) { g.bytes.resize(cut); g.pristine = false; } break; }
-      case 2: { int n = 1 + s.below(3); for (int k = 0; k < n && g.bytes.size() > lo; k++) { size_t at = lo + s.below((uint32_t)(g.bytes.size() - lo)); g.bytes[at] ^= (uint8_t)(1u << s.below(8)); } g.pristine = false; break; }
+      case 2: { int n = 1 + s.below(3); for (int k = 0; k < n && g.bytes.size() > lo; k++) { size_t at = lo + s.below((uint32_t)(g.bytes.size() - lo)); if (known_multiq && (at == 4 || at == 5)) at = 6;   /* QDCOUNT stays <= 1 */ g.bytes[at] ^= (uint8_t)(1u << s.below(8)); } g.pristine = false; break; }
       case 3: { int n = 1 + s.below(12); for (int k = 0; k < n; k++) g.bytes.push_back(s.byte()); g.pristine = false; break; }
       case 4: g.bytes[0] ^= 0x40; g.pristine = false; break;     // ID off by a bit
       default: break;
@@ -161,9 +156,7 @@ extern "C" int LLVMFuzzerTestOneInput(const uint8_t *data, size_t size) {
   sim_reset();
   verif_case_begin("C33");
   Src s(data, size);
-  const bool k_qname = verif_known("C33/question-name-mismatch-fails-request"), k_qtype = verif_known("C33/question-type-class-not-compared");
-  const bool k_rep = verif_known("C33/leak-cname-repeated"), k_unused = verif_known("C33/leak-cname-unused-reply"), k_rdl = verif_known("C33/name-rdlength-ignored");
-  const bool k_0x20 = verif_known("C33/0x20-case-not-verified"), k_tcp_uaf = verif_known("asan:heap-use-after-free@client_tcp_read_packet_cb");
+  const bool k_rdl = verif_known("C33/name-rdlength-ignored"), k_multiq = verif_known("C33/multi-question-mismatch-fails-request");
   World w; w.open(1); Case c;
 
   bool randcase = true; if (s.flag()) { randcase = false; w.set_opt("randomize-case:", 0L); }
@@ -203,8 +196,7 @@ extern "C" int LLVMFuzzerTestOneInput(const uint8_t *data, size_t size) {
   for (int round = 0; round < 3 && c.main_count == 0; round++) {
     if (round) refetch();
     if (on_tcp && (conn < 0 || w.conns[conn].fd < 0 || w.conns[conn].eof)) break;
-    Allow allow; allow.qname = !k_qname; allow.qtype = !k_qtype; allow.qcase = !(randcase && k_0x20); allow.qregion = !k_qname && !k_qtype && !k_0x20; allow.servfail = !(on_tcp && k_tcp_uaf);
-    Gen g = gen_reply(s, query, q, qtype, allow, cname_flag, k_rep, k_unused, k_rdl);
+    Gen g = gen_reply(s, query, q, qtype, cname_flag, k_rdl, k_multiq);
     // what the resolver can see: a UDP datagram is cut at its receive buffer
     std::vector<uint8_t> seen = g.bytes; if (!on_tcp && (long)seen.size() > udp_max) { seen.resize(udp_max); g.pristine = false; }
     if (on_tcp && (seen.empty() || seen.size() > 65535)) { seen.resize(seen.empty() ? 1 : 65535); }
@@ -222,10 +214,11 @@ extern "C" int LLVMFuzzerTestOneInput(const uint8_t *data, size_t size) {
     w.turn();
     // ---- classify with the reference decoder
     bool id_ok = m.hdr_ok && m.id == q.id, qr = m.hdr_ok && (m.flags & F_QR);
-    // question matching: RFC 1035 compares names case-insensitively; with 0x20 randomisation on, the echo must be exact
-    // (that is what the technique consists of).  Without 0x20 a case-only difference carries no claim either way.
-    bool match_name = false, match_full = false, match_ci = false;
-    for (auto &qq : m.q) { if (label_eq(qq.name, q.name, true)) match_ci = true; if (label_eq(qq.name, q.name, false)) { match_name = true; if (qq.type == qtype && qq.klass == C_IN) match_full = true; } }
+    // question matching: names compare case-insensitively (RFC 1035).  A reply whose question differs from the request ONLY in letter
+    // case is a "may" in both settings of randomize-case: evdns may use it (then the content oracle applies) or ignore it.
+    bool match_name = false, match_full = false, case_only = true;
+    for (auto &qq : m.q) { if (label_eq(qq.name, q.name, true)) { match_name = true; if (qq.type == qtype && qq.klass == C_IN) { match_full = true; if (label_eq(qq.name, q.name, false)) case_only = false; } } }
+    if (!match_full) case_only = false;
     if (!g.pristine) adversarial++;
     if (!id_ok || !qr) {
       CHECK(c.main_count == 0 && c.cname_count == 0, "C33/unmatched-reply-used", "a message with %s completed the request (result %d)", !m.hdr_ok ? "no complete header" : !id_ok ? "a wrong ID" : "QR clear", c.cbs.empty() ? -1 : c.cbs[0].result);
@@ -235,19 +228,15 @@ extern "C" int LLVMFuzzerTestOneInput(const uint8_t *data, size_t size) {
       if (c.main_count) CHECK(c.cbs[0].result != DNS_ERR_NONE, "C33/questionless-reply-used", "a reply without a decodable question section delivered data");
       continue;
     }
-    if (!match_name && match_ci) {
-      if (!randcase) { lenient_seen = true; continue; }
-      CHECK(c.main_count == 0, "C33/0x20-case-not-verified", "randomize-case is on, the query asked \"%s\", a reply echoing \"%s\" (different letter case) completed the request with result %d count %d", esc(join(q.name), 60).c_str(), esc(join(m.q[0].name), 60).c_str(), c.cbs[0].result, c.cbs[0].count);
-      ignored_ok++; continue;
-    }
     if (!match_name) {
-      CHECK(c.main_count == 0, "C33/question-name-mismatch-fails-request", "a reply whose question name \"%s\" is not the one asked (\"%s\", randomize-case=%d) completed the request with result %d", esc(join(m.q[0].name), 60).c_str(), esc(join(q.name), 60).c_str(), randcase, c.cbs[0].result);
+      CHECK(c.main_count == 0, m.qd >= 2 ? "C33/multi-question-mismatch-fails-request" : "C33/question-name-mismatch-fails-request", "a reply whose question name \"%s\" is not the one asked (\"%s\", randomize-case=%d) completed the request with result %d", esc(join(m.q[0].name), 60).c_str(), esc(join(q.name), 60).c_str(), randcase, c.cbs[0].result);
       ignored_ok++; continue;
     }
     if (!match_full) {
-      CHECK(c.main_count == 0, "C33/question-type-class-not-compared", "a reply whose question is type %u class %u (asked: %u/IN) completed the request with result %d count %d", m.q[0].type, m.q[0].klass, qtype, c.cbs[0].result, c.cbs[0].count);
+      CHECK(c.main_count == 0, m.qd >= 2 ? "C33/multi-question-mismatch-fails-request" : "C33/question-type-class-not-compared", "a reply whose question is type %u class %u (asked: %u/IN) completed the request with result %d count %d", m.q[0].type, m.q[0].klass, qtype, c.cbs[0].result, c.cbs[0].count);
       ignored_ok++; continue;
     }
+    if (case_only) { verif_class("question_case_only_diff"); lenient_seen = true; if (c.main_count == 0) continue; }
     reached_content++;
     // ---- content oracle.  Reference view of the answer section (decodable prefix).
     std::vector<uint8_t> want; uint32_t min_ttl = 0xffffffffu; bool odd_rdlen = false; std::vector<std::string> cnames; bool name_rdl_lie = false;
